@@ -98,7 +98,11 @@ def explore(tier, seed):
                 good, want = enc(text, entry), enc(formatted, entry)
                 d = os.path.join(sb.dir, f"b{k}")
                 os.makedirs(d)
-                names = {"a_bad.pas": bad, "b_good.pas": good, "c_bad16.pas": bad16, "d_good.pas": good}
+                # (enough files for the pool to hand several of them to one leaf job, which shares one read buffer)
+                names = {}
+                for i in range(16):
+                    names[f"f{2 * i:02d}_bad.pas"] = bad if i % 2 == 0 else bad16
+                    names[f"f{2 * i + 1:02d}_good.pas"] = good
                 for nm, c in names.items():
                     open(os.path.join(d, nm), "wb").write(c)
                 rc, out, err = cli.run(args_enc + [os.path.join(d, nm) for nm in names], hermetic_cfg=sb.empty_cfg, env={"RAYON_NUM_THREADS": "1"})
